@@ -240,6 +240,16 @@ def unblock(n):
         return n
 
 
+def only(n):
+    """unblock() plus blocks that consist of a single expression statement."""
+    while True:
+        n = unblock(n)
+        if isinstance(n, dict) and n.get("k") == "Block" and len(n.get("stmts", [])) == 1 and not n.get("expr") and n["stmts"][0]["k"] == "Expr":
+            n = n["stmts"][0]["e"]
+            continue
+        return n
+
+
 def pat_binds(p, out=None):
     """All bindings (name, id) introduced by a pattern."""
     if out is None:
